@@ -1,5 +1,7 @@
 //! C06: container programs (case language: coq/theories/Run/RunC06.v)
-//!   (6 ty D (op ...) (out ...))
+//!   (6 ty D (op ...) (out ...))   or   (6 ty D (op ...) (out ...) (w ...))
+//! (w ...): environment positions of the containers the derivatives are queried WITH RESPECT TO
+//! (default: the variable declarations); any source kind / tape layout, must live on the tape.
 //! The program is run FOUR times on fresh tapes, pass p using ownership / API form p of every
 //! operation (operators by value / by reference in all combinations, assign in place / by
 //! value, map / map_with_index, the different derivative accessors); all passes must give the
@@ -14,7 +16,11 @@
 //! container with the SAME kind of source).  The element-by-element oracle reads the positions
 //! of such a view off the real adaptor applied to element identifiers.
 //! Cross-checks inside one pass (inconsistent(code)): 63/64 at_tensor vs at_tensor_index /
-//! at_matrix vs at_matrix_index; 65/67 view() vs iter_as_records vs get_as_record; 66/68
+//! at_matrix vs at_matrix_index; 76/77 the other query forms of Derivatives (query_ten /
+//! query_mat: at(&record), Index<&Record>, Vec::from(d)[index], shape of the whole answer, None
+//! outside, column-major reading) - for the queried containers (the printed form rotates with the
+//! pass) AND, for every fourth output element, for EVERY container of the environment on the
+//! output's list (views, interleaved from_iters outputs, intermediate results); 65/67 view() vs iter_as_records vs get_as_record; 66/68
 //! constants have no derivatives; 71 derivatives_for outside the shape is None; 72-75 the
 //! AsRecords iterators (len / size_hint / fused / with_index, row and column major,
 //! try_get_as_record outside the size); map_with_index closures assert the index they receive.
@@ -150,21 +156,30 @@ fn dec_op<T: Enc>(s: &Sx, d: usize) -> Option<Op<T>> {
 }
 
 pub fn run(args: &[Sx]) -> Sx {
-    if args.len() != 4 {
+    if args.len() != 4 && args.len() != 5 {
         return bad_case();
     }
     let (Some(ty), Some(d)) = (args[0].i64(), args[1].usize()) else { return bad_case() };
-    with_ty!(ty, go(d, &args[2], &args[3]))
+    // optional: the containers the derivatives are queried WITH RESPECT TO (default: the
+    // variable declarations)
+    let wrt = match args.get(4) {
+        None => None,
+        Some(w) => match w.usizes() {
+            Some(w) => Some(w),
+            None => return bad_case(),
+        },
+    };
+    with_ty!(ty, go(d, &args[2], &args[3], wrt))
 }
 
-fn go<T: Real + Primitive + Enc + Clone + PartialEq + 'static>(d: usize, prog: &Sx, outs: &Sx) -> Sx
+fn go<T: Real + Primitive + Enc + Clone + PartialEq + 'static>(d: usize, prog: &Sx, outs: &Sx, wrt: Option<Vec<usize>>) -> Sx
 where
     for<'t> &'t T: RealRef<T>,
 {
     match d {
-        1 => go_d::<T, 1>(prog, outs),
-        2 => go_d::<T, 2>(prog, outs),
-        3 => go_d::<T, 3>(prog, outs),
+        1 => go_d::<T, 1>(prog, outs, wrt),
+        2 => go_d::<T, 2>(prog, outs, wrt),
+        3 => go_d::<T, 3>(prog, outs, wrt),
         _ => bad_case(),
     }
 }
@@ -798,42 +813,139 @@ fn multi_index<const D: usize>(lens: &[usize; D], mut k: usize) -> [usize; D] {
     idx
 }
 
+/// Every query form of `Derivatives` with respect to the record tensor `x` (whatever its source):
+/// the whole tensor (at_tensor), one index at a time (at_tensor_index), one Record at a time
+/// (`at`, `Index<&Record>`) and the raw vector (`Vec::from`) read at the element's index - all in
+/// the VIEW order of x.  They must all agree (63 / 76); an index outside the shape gives None.
+fn query_ten<'a, T, S, const D: usize>(
+    d: &Derivatives<T>,
+    raw: &[T],
+    x: &RecordTensor<'a, T, S, D>,
+    form: usize,
+) -> Result<Vec<T>, i64>
+where
+    T: Real + Primitive + Clone + PartialEq,
+    for<'t> &'t T: RealRef<T>,
+    S: easy_ml::tensors::views::TensorRef<(T, Index), D>,
+{
+    let at_once = d.at_tensor(x);
+    if at_once.shape() != x.shape() {
+        return Err(76);
+    }
+    let whole: Vec<T> = at_once.iter().collect();
+    let sh = x.shape();
+    let lens: [usize; D] = std::array::from_fn(|i| sh[i].1);
+    let single: Vec<T> = (0..whole.len()).map(|j| d.at_tensor_index(multi_index(&lens, j), x).unwrap()).collect();
+    if whole != single {
+        return Err(63);
+    }
+    let recs: Vec<Record<'a, T>> = x.iter_as_records().collect();
+    let by_at: Vec<T> = recs.iter().map(|r| d.at(r)).collect();
+    let by_index: Vec<T> = recs.iter().map(|r| d[r].clone()).collect();
+    let by_raw: Vec<T> = recs.iter().map(|r| raw[r.index].clone()).collect();
+    let by_pairs: Vec<T> = x.view().iter().map(|(_, i)| raw[i].clone()).collect();
+    if whole != by_at || by_at != by_index || by_at != by_raw || by_at != by_pairs {
+        return Err(76);
+    }
+    if d.at_tensor_index(lens, x).is_some() {
+        return Err(76);
+    }
+    Ok(match form % 4 {
+        0 => whole,
+        1 => single,
+        2 => by_at,
+        _ => by_index,
+    })
+}
+
+/// the same for a record matrix: at_matrix / at_matrix_index / at / Index / raw vector (64 / 77)
+fn query_mat<'a, T, S>(d: &Derivatives<T>, raw: &[T], x: &RecordMatrix<'a, T, S>, form: usize) -> Result<Vec<T>, i64>
+where
+    T: Real + Primitive + Clone + PartialEq,
+    for<'t> &'t T: RealRef<T>,
+    S: easy_ml::matrices::views::MatrixRef<(T, Index)> + easy_ml::matrices::views::NoInteriorMutability,
+{
+    let at_once = d.at_matrix(x);
+    if at_once.size() != (x.rows(), x.columns()) {
+        return Err(77);
+    }
+    let whole: Vec<T> = at_once.row_major_iter().collect();
+    let cols = x.columns();
+    let single: Vec<T> = (0..whole.len()).map(|j| d.at_matrix_index(j / cols, j % cols, x).unwrap()).collect();
+    if whole != single {
+        return Err(64);
+    }
+    let recs: Vec<Record<'a, T>> = x.iter_row_major_as_records().collect();
+    let by_at: Vec<T> = recs.iter().map(|r| d.at(r)).collect();
+    let by_index: Vec<T> = recs.iter().map(|r| d[r].clone()).collect();
+    let by_raw: Vec<T> = recs.iter().map(|r| raw[r.index].clone()).collect();
+    let by_pairs: Vec<T> = x.view().row_major_iter().map(|(_, i)| raw[i].clone()).collect();
+    if whole != by_at || by_at != by_index || by_at != by_raw || by_at != by_pairs {
+        return Err(77);
+    }
+    // column major reading of the whole-matrix answer
+    let rows = x.rows();
+    let cm: Vec<T> = at_once.column_major_iter().collect();
+    let cm_single: Vec<T> = (0..cm.len()).map(|j| d.at_matrix_index(j % rows, j / rows, x).unwrap()).collect();
+    if cm != cm_single {
+        return Err(77);
+    }
+    if d.at_matrix_index(rows, 0, x).is_some() || d.at_matrix_index(0, cols, x).is_some() {
+        return Err(77);
+    }
+    Ok(match form % 4 {
+        0 => whole,
+        1 => single,
+        2 => by_at,
+        _ => by_index,
+    })
+}
+
+fn query_any<'a, T: Real + Primitive + Clone + PartialEq + 'static, const D: usize>(
+    d: &Derivatives<T>,
+    raw: &[T],
+    x: &CObj<'a, T, D>,
+    form: usize,
+) -> Result<Vec<T>, i64>
+where
+    for<'t> &'t T: RealRef<T>,
+{
+    match x {
+        CObj::Ten(x) => query_ten::<T, _, D>(d, raw, x, form),
+        CObj::TenV(x) => query_ten::<T, _, D>(d, raw, x, form),
+        CObj::TenD(x) => query_ten::<T, _, D>(d, raw, x, form),
+        CObj::Mat(x) => query_mat::<T, _>(d, raw, x, form),
+        CObj::MatV(x) => query_mat::<T, _>(d, raw, x, form),
+        CObj::MatD(x) => query_mat::<T, _>(d, raw, x, form),
+    }
+}
+
 /// derivatives of one output element with respect to every element of every input container
-fn derivs_row<'a, T: Real + Primitive + Enc + Clone + PartialEq, const D: usize>(
+/// (any source kind), read through every query form of `Derivatives`; `sweep`: also query EVERY
+/// container of the environment that lives on the output's list (views, interleaved from_iters
+/// outputs, intermediate results), whatever the case asked for
+fn derivs_row<'a, T: Real + Primitive + Enc + Clone + PartialEq + 'static, const D: usize>(
     d: &Derivatives<T>,
     env: &[CObj<'a, T, D>],
     inputs: &[usize],
     form: usize,
+    sweep: Option<&'a WengertList<T>>,
 ) -> Result<Sx, i64>
 where
     for<'t> &'t T: RealRef<T>,
 {
+    let raw: Vec<T> = Vec::from(d.clone());
     let mut per_input = vec![];
     for &k in inputs {
-        let vals: Vec<T> = match &env[k] {
-            CObj::Ten(x) => {
-                let whole: Vec<T> = d.at_tensor(x).iter().collect();
-                let sh = x.shape();
-                let lens: [usize; D] = std::array::from_fn(|i| sh[i].1);
-                let single: Vec<T> =
-                    (0..whole.len()).map(|j| d.at_tensor_index(multi_index(&lens, j), x).unwrap()).collect();
-                if whole != single {
-                    return Err(63);
-                }
-                if form % 2 == 0 { whole } else { single }
-            }
-            CObj::Mat(x) => {
-                let whole: Vec<T> = d.at_matrix(x).row_major_iter().collect();
-                let cols = x.columns();
-                let single: Vec<T> = (0..whole.len()).map(|j| d.at_matrix_index(j / cols, j % cols, x).unwrap()).collect();
-                if whole != single {
-                    return Err(64);
-                }
-                if form % 2 == 0 { whole } else { single }
-            }
-            _ => return Err(69), // inputs are declarations: owned sources
-        };
+        let vals = query_any::<T, D>(d, &raw, &env[k], form)?;
         per_input.push(l(vals.iter().map(|v| v.enc()).collect()));
+    }
+    if let Some(list) = sweep {
+        for (k, x) in env.iter().enumerate() {
+            if same_history(x.history(), Some(list)) && !inputs.contains(&k) {
+                query_any::<T, D>(d, &raw, x, form + k)?;
+            }
+        }
     }
     Ok(l(per_input))
 }
@@ -962,7 +1074,7 @@ where
                             None => guarded(|| c.derivatives_for(multi_index(&lens, k)).unwrap()),
                         };
                         rows.push(match d {
-                            Some(d) => derivs_row::<T, D>(&d, env, inputs, form)?,
+                            Some(d) => derivs_row::<T, D>(&d, env, inputs, form, if k % 4 == form { c.history() } else { None })?,
                             None => bad.clone(),
                         });
                     }
@@ -1029,7 +1141,7 @@ where
                             None => guarded(|| c.derivatives_for(k / cols, k % cols).unwrap()),
                         };
                         rows.push(match d {
-                            Some(d) => derivs_row::<T, D>(&d, env, inputs, form)?,
+                            Some(d) => derivs_row::<T, D>(&d, env, inputs, form, if k % 4 == form { c.history() } else { None })?,
                             None => bad.clone(),
                         });
                     }
@@ -1419,7 +1531,7 @@ fn input_derivs<'a, const D: usize>(d: &Derivatives<f64>, env: &[CObj<'a, f64, D
     out
 }
 
-fn go_d<T: Real + Primitive + Enc + Clone + PartialEq + 'static, const D: usize>(prog: &Sx, outs: &Sx) -> Sx
+fn go_d<T: Real + Primitive + Enc + Clone + PartialEq + 'static, const D: usize>(prog: &Sx, outs: &Sx, wrt: Option<Vec<usize>>) -> Sx
 where
     for<'t> &'t T: RealRef<T>,
 {
@@ -1438,6 +1550,10 @@ where
             other => pos += other.outputs(),
         }
     }
+    let decl_inputs = inputs.clone();
+    if let Some(w) = wrt {
+        inputs = w;
+    }
     // ---- the four container passes
     let mut canonical: Option<(Sx, Vec<Sx>)> = None; // (printed result, per-output (values, derivs) for the oracle)
     for form in 0..4 {
@@ -1454,6 +1570,10 @@ where
         let printed = match &st {
             Status::Ok(env) => {
                 if outs.iter().any(|&o| o >= env.len()) {
+                    return bad_case();
+                }
+                // derivatives are queried with respect to containers of the program's own list
+                if inputs.iter().any(|&k| k >= env.len() || !same_history(env[k].history(), Some(&list))) {
                     return bad_case();
                 }
                 let mut items = vec![];
@@ -1524,7 +1644,7 @@ where
     let Status::Ok(_) = &st2 else { return inconsistent(610) };
     // ---- the same program on f64 (bitwise, NaN-aware), where it applies
     if let Some(fops) = f64_ops::<T>(&ops) {
-        if let Some(code) = f64_oracle::<D>(&fops, &inputs) {
+        if let Some(code) = f64_oracle::<D>(&fops, &decl_inputs) {
             return inconsistent(code);
         }
     }
